@@ -674,7 +674,8 @@ class C18(Check):
             "sequence of length 6 (quick) / 8 (thorough) over 0..8 for max_run 1..3(4), min_wait {0,2,5}(+1, 2.5), "
             "start {0,3}.  ready()/pending()/run_count/run_time compared with a reference state machine at "
             "every step, plus the three stated invariants on the observed runs.  Non-trivial: a wanted run is "
-            "suppressed by count, wait or start time.")
+            "suppressed by count, wait or start time."
+            " Extended during the build phase: templates over well-list names, escaped templates, fractional month numbers, segment-level quantities (SOFR / SPR 'well' segment) on the left-hand side.")
     ASSUMPTIONS = [
         "summary values and numeric literals are multiples of 1/4 (exact in binary), MNTH right-hand sides avoid "
         "exact .5 fractions (rounding direction of ties is not stated)",
